@@ -81,6 +81,7 @@ func (l *c20Log) updater(id int) interpreter.UpdaterFunc {
 		l.fired = append(l.fired, id)
 		s := fmt.Sprintf("updater-%d", id)
 		item["marker"] = &mtypes.Item{S: &s}
+		delete(item, "a") // the Go form of a REMOVE clause
 	}
 }
 
@@ -342,6 +343,14 @@ func runC20(c c20Case, info *c20Info) (fl *failure) {
 					if m, ok := got.Item["marker"]; !ok || m.S != fmt.Sprintf("updater-%d", uReg.ID) {
 						return fail("native dispatch: wrong updater used", "marker %v, want updater-%d", got.Item["marker"], uReg.ID)
 					}
+					if _, ok := got.Item["a"]; ok {
+						return fail("native dispatch: the updater's mutation is not the outcome", "the updater deleted attribute a, the item after the update still holds it: %s", model.CanonItem(got.Item))
+					}
+					if g := d.Apply(model.Op{Kind: "Get", Table: op.Table, Key: op.Key}); g.Err == "" {
+						if _, ok := g.Item["a"]; ok || g.Item["marker"].S != fmt.Sprintf("updater-%d", uReg.ID) {
+							return fail("native dispatch: the updater's mutation is not the outcome", "stored item after the update: %s", model.CanonItem(g.Item))
+						}
+					}
 				case c.NativeOn:
 					if got.Err != model.ErrUnsupported && got.Err != model.ErrUnsupPanic {
 						return fail("update without a registered updater did not fail as unsupported", "got %q %s", got.Err, got.ErrText)
@@ -390,7 +399,7 @@ func init() {
 	}
 }
 
-const ruleC20 = "rapid: a set of registrations - subset of {tblA, tblB} x {key, filter, conditional, update} x texts from pools built to collide under character sorting (anagram pairs such as 'a = :v' / ':v = a' / 'v = :a', 'SET a = :v, b = :w' / 'SET a = :w, b = :v', whitespace variants, letter-case variants 'a' / 'A', prefixes), each with an instrumented callback that records its id and returns a generated verdict (matchers) or writes a marker attribute (updaters); the native interpreter on or off, activated before or after table creation, registrations made on the client's own interpreter or installed with SetInterpreter before or after table creation, before or after the tables exist, optionally after the same request has already been executed once unregistered; then one request (Scan with filter, Query with key condition and optional filter, Put / Delete / Update with condition, Update with update text) on either table, on both SDK clients. Oracle: for each expression the request evaluates, a registration for exactly (table, kind, trimmed text) -> that callback and only it fires and its verdict / mutation decides the outcome (texts equal after collapsing surrounding and repeated whitespace are one registration, the latest wins); no such registration -> no callback fires, matches fall back to the built-in interpreter (reference model), updates fail as unsupported and change nothing. Non-trivial = request whose text is an anagram (not whitespace-equal) of a registered text of the same slot, or equal to a text registered for another table or kind; distinct = hash of the case."
+const ruleC20 = "rapid: a set of registrations - subset of {tblA, tblB} x {key, filter, conditional, update} x texts from pools built to collide under character sorting (anagram pairs such as 'a = :v' / ':v = a' / 'v = :a', 'SET a = :v, b = :w' / 'SET a = :w, b = :v', whitespace variants, letter-case variants 'a' / 'A', prefixes), each with an instrumented callback that records its id and returns a generated verdict (matchers) or writes a marker attribute and deletes another (updaters); the native interpreter on or off, activated before or after table creation, registrations made on the client's own interpreter or installed with SetInterpreter before or after table creation, before or after the tables exist, optionally after the same request has already been executed once unregistered; then one request (Scan with filter, Query with key condition and optional filter, Put / Delete / Update with condition, Update with update text) on either table, on both SDK clients. Oracle: for each expression the request evaluates, a registration for exactly (table, kind, trimmed text) -> that callback and only it fires and its verdict / mutation decides the outcome (texts equal after collapsing surrounding and repeated whitespace are one registration, the latest wins); no such registration -> no callback fires, matches fall back to the built-in interpreter (reference model), updates fail as unsupported and change nothing. Non-trivial = request whose text is an anagram (not whitespace-equal) of a registered text of the same slot, or equal to a text registered for another table or kind; distinct = hash of the case."
 
 // TestC20 decides property C20.
 func TestC20(t *testing.T) {
